@@ -49,3 +49,29 @@ Definition get_conn_addr_first (conns : list (bytes * N)) (src : bytes) (rid : o
   | Some c => Some c
   | None => match rid with Some id => lookup id conns | None => None end
   end.
+
+(* ---------------------------------------------------------------- how the listener learns an ID *)
+
+(* /repo/internal/net/udp/packet_conn.go PacketConn.WriteTo hands every datagram the connection writes
+   to /repo/connection_id.go cidConnIdentifier until that yields an ID; the ID is then registered in
+   l.conns.  cidConnIdentifier looks at the FIRST record only and parses it as a COMPLETE ServerHello:
+   the fragment offset and fragment length of the handshake header are not consulted, so a fragment
+   does not parse.  What matters of a written datagram's first record:
+     fr_sh    unprotected handshake record whose message type is ServerHello
+     fr_off / fr_flen / fr_len   fragment offset, fragment length, message length
+     fr_cid   the connection_id extension of the ServerHello MESSAGE the record belongs to *)
+Record first_rec := mkFR { fr_sh : bool; fr_off : N; fr_flen : N; fr_len : N; fr_cid : option bytes }.
+
+Definition fr_complete (f : first_rec) : bool := fr_sh f && (fr_off f =? 0) && (fr_flen f =? fr_len f).
+
+Definition learn_one (f : first_rec) : option bytes := if fr_complete f then fr_cid f else None.
+
+Fixpoint learned (ws : list first_rec) : option bytes :=
+  match ws with
+  | [] => None
+  | f :: ws' => match learn_one f with Some c => Some c | None => learned ws' end
+  end.
+
+(* the listener's table for connection [k], accepted from [addr], after it wrote [ws] *)
+Definition table_after (addr : bytes) (k : N) (ws : list first_rec) : list (bytes * N) :=
+  match learned ws with Some c => [(c, k); (addr, k)] | None => [(addr, k)] end.
